@@ -68,7 +68,7 @@ class Unit:
                  raises=None, loops=None, calls=None, ghost=None, attrs=None, records=None, consts=None,
                  properties=None, exc_mode=None, props=(), fall_is_return=False, defaults=None,
                  post_hook=None, stmt_hooks=None, subscripts=None, subscript_store=None, raises_spec=None,
-                 prune_after=64, lemmas=(), cuts=None, modifies=(), pure=False, yield_ensures=(), local_shapes=None, lenient=False, axiom_arrays=False, name=None, covers=True, note=""):
+                 prune_after=64, lemmas=(), cuts=None, modifies=(), pure=False, yield_ensures=(), local_shapes=None, lenient=False, axiom_arrays=False, event_ensures=(), name=None, covers=True, note=""):
         self.module = module
         self.qualname = qualname
         self.slice = slice
@@ -99,6 +99,7 @@ class Unit:
         self.modifies = tuple(modifies)
         self.pure = pure
         self.lenient = lenient
+        self.event_ensures = [(r if isinstance(r, tuple) else (f'ev{k}', r)) for k, r in enumerate(event_ensures)]
         self.axiom_arrays = axiom_arrays
         self.local_shapes = dict(local_shapes or {})
         self.yield_ensures = [(r if isinstance(r, tuple) else (f'y{k}', r)) for k, r in enumerate(yield_ensures)]
